@@ -477,7 +477,7 @@ func (x *Exec) lockBalanceChecked(fr *Frame) bool {
 		return false
 	}
 	for _, c := range fr.unit.C.Ensures {
-		if strings.Contains(c.Expr, "held(") {
+		if strings.Contains(c.Expr, "held(") || strings.Contains(c.Expr, "lockswap(") || strings.Contains(c.Expr, "lockdrop(") {
 			return false
 		}
 	}
